@@ -59,6 +59,7 @@ func emitMix(out *Out, r *Rng, goroutines, rounds int) {
 		}
 	}
 	hvWant, _ := merklize.HashValue(xsdNS+"integer", 12345)
+	small := hSmall(65537)
 	urls := []string{warm, expiring, nostore, embedded, "https://ctx.example/missing.jsonld", stale, stale}
 	want := map[string]int{warm: 11, expiring: 22, nostore: 33, embedded: 1234, "https://ctx.example/missing.jsonld": -1, stale: 44}
 	var mu sync.Mutex
@@ -122,9 +123,24 @@ func emitMix(out *Out, r *Rng, goroutines, rounds int) {
 						}
 					}
 				case 2:
-					hv, err := merklize.HashValue(xsdNS+"integer", 12345)
-					if err != nil || hv.Cmp(hvWant) != 0 {
-						fail("concurrent HashValue differs")
+					// two hashers with different primes in use at the same time: each keeps its own integer range
+					switch lr.Intn(3) {
+					case 0:
+						hv, err := merklize.HashValue(xsdNS+"integer", 12345)
+						if err != nil || hv.Cmp(hvWant) != 0 {
+							fail("concurrent HashValue differs")
+						}
+						if hv2, err := merklize.HashValue(xsdNS+"integer", 40000); err != nil || hv2.Int64() != 40000 {
+							fail(fmt.Sprintf("concurrent HashValue(40000) under the default hasher: %v %v", hv2, err))
+						}
+					case 1:
+						if hv2, err := merklize.HashValueWithHasher(small.H, xsdNS+"integer", 40000); err == nil {
+							fail(fmt.Sprintf("40000 is outside the integer range of the prime 65537 but was accepted concurrently (%v)", hv2))
+						}
+					default:
+						if hv2, err := merklize.HashValueWithHasher(small.H, xsdNS+"integer", -123); err != nil || hv2.Int64() != 65537-123 {
+							fail(fmt.Sprintf("concurrent HashValueWithHasher(-123) under the prime 65537: %v %v", hv2, err))
+						}
 					}
 				default:
 					u := urls[lr.Intn(len(urls))]
